@@ -16,7 +16,7 @@ func init() {
 	register(&Property{
 		ID:      "C11",
 		NeedSSA: true,
-		Decided: "Structural necessary conditions: (marker) the types whose method set contains the chunk-transparency marker are exactly the frozen allow-list (file row groups, buffers, row-range views), no type that declares its own Rows() obtains the marker or the segment accessor by promotion from an embedded type, and both fast-path entries test the marker before they look at column chunks; wrappers that change row semantics (merge with duplicate dropping) return no segments; (strict) in the eligibility predicates every inequality between a property of the source chunk and the destination writer's configuration refuses immediately, with no further condition attached; (limits) both fast-path entries compare the row count with the row-group limit; (nocopy) eligibility consults the encryption state (C18.nocopy); (rows) a function that feeds values read with ReadValues to ColumnWriter.WriteRowValues, whose contract is whole rows, finds row boundaries through the repetition levels; (order) the packing path flushes buffered rows before it sizes bloom filters and flushes a pending batch before it would exceed the row-group limit. (source) outside the static call closure of OpenFile and of the lazy page-index loader, no function of the package writes through a field of the File* types that holds parsed format structures (footer, row groups, column chunks, page indexes): what is copied from an open file is copied, not adjusted in place. (cloneall) a function that returns a struct starting from a shallow copy of its parameter and re-assigns some slice or map field with a copy re-assigns every slice and map field. (order, cont.) every call of the column-by-column re-encode, and the CopyRows call of Writer.WriteRowGroup, is dominated in its function by the call that sizes the bloom filters for that row group, and in Writer.WriteRowGroup every such sizing is dominated by the flush of the rows buffered before. (stagefail) a function that stages source chunks for a verbatim copy in a loop (loadCopiedChunk) resets column writers in the code that runs between the failure of the staging call and the return of its error.",
+		Decided: "Structural necessary conditions: (marker) the types whose method set contains the chunk-transparency marker are exactly the frozen allow-list (file row groups, buffers, row-range views), no type that declares its own Rows() obtains the marker or the segment accessor by promotion from an embedded type, and both fast-path entries test the marker before they look at column chunks; wrappers that change row semantics (merge with duplicate dropping) return no segments; (strict) in the eligibility predicates every inequality between a property of the source chunk and the destination writer's configuration refuses immediately, with no further condition attached; (limits) both fast-path entries compare the row count with the row-group limit; (nocopy) eligibility consults the encryption state (C18.nocopy); (rows) a function that feeds values read with ReadValues to ColumnWriter.WriteRowValues, whose contract is whole rows, finds row boundaries through the repetition levels; (order) the packing path flushes buffered rows before it sizes bloom filters and flushes a pending batch before it would exceed the row-group limit. (source) outside the static call closure of OpenFile and of the lazy page-index loader, no function of the package writes through a field of the File* types that holds parsed format structures (footer, row groups, column chunks, page indexes): what is copied from an open file is copied, not adjusted in place. (cloneall) a function that returns a struct starting from a shallow copy of its parameter and re-assigns some slice or map field with a copy re-assigns every slice and map field. (order, cont.) every call of the column-by-column re-encode, and the CopyRows call of Writer.WriteRowGroup, is dominated in its function by the call that sizes the bloom filters for that row group, and in Writer.WriteRowGroup every such sizing is dominated by the flush of the rows buffered before. (stagefail) a function that stages source chunks for a verbatim copy in a loop (loadCopiedChunk) resets column writers in the code that runs between the failure of the staging call and the return of its error. (growkeep) a loop-carried buffer that is found full by comparing the count of a copy into it with its length, and is then replaced, carries its content over: the replacement is an append to the old buffer or a fresh make that receives a copy of it (the column-wise re-encode holds an unfinished row back this way).",
 		NotDecided: "byte or row equality of the outputs; that the predicate lists every writer option that matters (options read on the encode path but not by the predicate are listed in the evidence notes, not decided); page boundary arithmetic.",
 		Assumptions: []string{"method sets are computed by go/types, promotion included"},
 		Run:         runC11,
@@ -24,7 +24,7 @@ func init() {
 	register(&Property{
 		ID:      "C09",
 		NeedSSA: true,
-		Decided: "Only the clause `equally when the merged row group is written to a file` is decided, structurally: (marker) mergedRowGroup and sortedSegmentRowGroup, dedup and converted wrappers do not carry the chunk-transparency marker, so the writer reads them through Rows(); mergedRowGroup declares its own segment accessor returning nil although it embeds a type that opts in; sortedSegmentRowGroup returns no segments on the duplicate-dropping path (the return of its segments is dominated by the test of dropDuplicatedRows); (bounds) the function that computes the key range of a sorted row group takes the direction of each sorting column from that column, not from a fixed one; (errors) the merge readers propagate read errors of their inputs (shared with C14.errflow). (bounds, cont.) the key range of a sorted row group consults the null counts of the column index and NullsFirst() of the sorting column. (nullcount) every count over definition levels (countLevelsEqual / countLevelsNotEqual on a value read from a field or parameter named after definition levels) compares with a maximum definition level, never with a constant. (wraporder) the argument of CompareDescending never derives from CompareNullsFirst / CompareNullsLast: the null placement is applied outside the reversal. (cutnulls) a function that turns the bounds of a column index into row positions (MinValue/MaxValue together with FirstRowIndex) also consults NullCount. (rebuild) a function that builds a plain row group from the ColumnChunks() of a RowGroup it was given calls chunkTransparentRowGroup first, and the call dominates the construction. (sortstale) no value loaded from an element of a slice before a sorting call on that slice (slices.Sort*, sort.Slice*, sort.Sort) is used after the call: what is read first is an element of the caller's order, not of the sorted one. (anyscan) a boolean that starts false, is merged with itself around a loop and is used after it leaves the loop through an exit other than the loop condition only as the constant true: a scan for \"any page has nulls\" is not cut short by the break of another search sharing the loop.",
+		Decided: "Only the clause `equally when the merged row group is written to a file` is decided, structurally: (marker) mergedRowGroup and sortedSegmentRowGroup, dedup and converted wrappers do not carry the chunk-transparency marker, so the writer reads them through Rows(); mergedRowGroup declares its own segment accessor returning nil although it embeds a type that opts in; sortedSegmentRowGroup returns no segments on the duplicate-dropping path (the return of its segments is dominated by the test of dropDuplicatedRows); (bounds) the function that computes the key range of a sorted row group takes the direction of each sorting column from that column, not from a fixed one; (errors) the merge readers propagate read errors of their inputs (shared with C14.errflow). (bounds, cont.) the key range of a sorted row group consults the null counts of the column index and NullsFirst() of the sorting column. (nullcount) every count over definition levels (countLevelsEqual / countLevelsNotEqual on a value read from a field or parameter named after definition levels) compares with a maximum definition level, never with a constant. (wraporder) the argument of CompareDescending never derives from CompareNullsFirst / CompareNullsLast: the null placement is applied outside the reversal. (cutnulls) a function that turns the bounds of a column index into row positions (MinValue/MaxValue together with FirstRowIndex) also consults NullCount. (rebuild) a function that builds a plain row group from the ColumnChunks() of a RowGroup it was given calls chunkTransparentRowGroup first, and the call dominates the construction. (sortstale) no value loaded from an element of a slice before a sorting call on that slice (slices.Sort*, sort.Slice*, sort.Sort) is used after the call: what is read first is an element of the caller's order, not of the sorted one. (anyscan) a boolean that starts false, is merged with itself around a loop and is used after it leaves the loop through an exit other than the loop condition only as the constant true: a scan for \"any page has nulls\" is not cut short by the break of another search sharing the loop. (drainstop) in the merge readers, from the edge on which (*bufferedRowReader).advance / next report the source drained no call of (*bufferedRowReader).read is reachable inside the function: the batch is returned before the source whose memory its rows point into is read again.",
 		NotDecided: "sortedness, multiset equality, stability and deduplication of the merged sequence: the loser tree, run detection, range refinement and the page-boundary cut are value-dependent (a cut comparison that is `>=` instead of `>` is not visible structurally).",
 		Assumptions: []string{"method sets are computed by go/types, promotion included"},
 		Run:         runC09,
@@ -206,6 +206,7 @@ func runC11(c *Ctx) {
 	c11Source(c)
 	c11StageFail(c)
 	runCloneAllRule(c, "C11.cloneall", 2)
+	runGrowKeepRule(c, "C11.growkeep", 1)
 	markerRule(c, "C11.marker")
 	strictRule(c, "C11.strict", []string{"columnChunkIsCopyable", "encodingStatsMatch", "(*Writer).copyableColumnChunks", "(*Writer).columnOrientedRowGroup"})
 	c.Min("C11.strict", 6)
@@ -402,6 +403,7 @@ func runC09(c *Ctx) {
 	c09NullCount(c)
 	c09Rebuild(c)
 	runSortStaleRule(c, "C09.sortstale", 5)
+	runDrainStopRule(c, "C09.drainstop", 4)
 	runAnyScanRule(c, "C09.anyscan", func(fn *ssa.Function) bool { return fnPkgPath(fn) == modPath }, 2)
 	c10WrapOrder(c)
 	p := c.P
